@@ -73,8 +73,6 @@ func cmdTrace(outPath, metaPath string, seed int64, nscen int) int {
 				rec.emit(Event{"ev": "Swap", "w": wkey(wk), "n": len(e.Promises)})
 			case service.VerifEvRelease:
 				rec.emit(Event{"ev": "Release", "w": wkey(wk), "n": len(e.Promises), "ok": e.Err == nil})
-			case service.VerifEvConnFail:
-				rec.emit(Event{"ev": "ConnFail", "w": wkey(wk)})
 			}
 		}
 		failP := rnd.Intn(25)
@@ -236,7 +234,7 @@ func cmdTrace(outPath, metaPath string, seed int64, nscen int) int {
 			select {
 			case <-sv(n).runRet:
 				rec.emit(Event{"ev": "RunRet", "sv": svk(n)})
-			case <-time.After(time.Second):
+			case <-time.After(3 * time.Second):
 				// not a behaviour of the model: every worker is cancelled, Run() must return.  The recording ends here.
 				w.Sink = func(wk *Worker, e service.VerifEvent) {}
 				// keep a short tail after the last StopRet (a prefix of a behaviour is a behaviour), then the verdict line
